@@ -890,6 +890,15 @@ func (p *RefPeer) onRequest(m refwire.Request) {
 	if kind == AnsReject && !fast {
 		kind = AnsSilent
 	}
+	if !fast && p.lastChokeEpoch >= p.W.Epoch {
+		// without the fast extension a request that arrives before a
+		// quiescent point has followed our last choke may be one the system
+		// has already written off (it handled the choke after sending it):
+		// we do not answer it, so that our answer cannot be taken for the
+		// answer to the request that replaces it (a peer may ignore a request)
+		kind = AnsSilent
+		simrt.Probe("request-in-the-wake-of-a-choke-ignored")
+	}
 	r.Kind = kind
 	d := time.Duration(0)
 	if p.Cfg.AnswerDelay != nil {
@@ -1163,7 +1172,21 @@ func (p *RefPeer) conform(m refwire.Message) {
 			if p.SentReqq == 0 {
 				class = "reqq-zero"
 			}
-			p.Viol("C11", "request-pipeline", class, "%s: %d requests outstanding, advertised queue depth %d", p.Cfg.Name, nout, p.SentReqq)
+			own := ""
+			for _, t := range p.W.Torrents {
+				for _, sp := range t.SimPeers() {
+					if string(sp.Id) == string(p.ID) {
+						q, o := sp.SimRequests()
+						own = fmt.Sprintf("; the system's own record for this peer: queued %v outstanding %v, reqq %d", q, o, sp.SimReqQ())
+					}
+				}
+			}
+			var outs []string
+			for k, r := range p.Outstanding {
+				outs = append(outs, fmt.Sprintf("(%d,%d)@e%d cancelled=%v", k.Piece, k.Begin, r.Epoch, r.Cancelled))
+			}
+			sort.Strings(outs)
+			p.Viol("C11", "request-pipeline", class, "%s: %d requests outstanding, advertised queue depth %d: %v (last choke sent at epoch %d, fast=%v)%s", p.Cfg.Name, nout, p.SentReqq, outs, p.lastChokeEpoch, fast, own)
 		}
 	case refwire.Cancel:
 		var last *sysReq
